@@ -724,6 +724,10 @@ impl<'a> CompileState<'a> {
                 if let Some(field_count) = NonZeroUsize::new(field_count) {
                     self.append_instruction(Instruction::MStructGet(field_count));
                     self.append_instruction(Instruction::MStructSet(field_count));
+                } else {
+                    // A struct without fields takes nothing from the source struct: drop the
+                    // source so that the new (empty) struct is the result.
+                    self.append_instruction(Instruction::Pop);
                 }
             }
             thir::ExprKind::Cast(lhs, rhs_ident) => {
